@@ -3,7 +3,6 @@
 package opdrv
 
 import (
-	"sync/atomic"
 	"encoding/json"
 	"fmt"
 	"io"
@@ -12,6 +11,7 @@ import (
 	"os"
 	"sort"
 	"strings"
+	"sync/atomic"
 	"time"
 
 	jose "github.com/go-jose/go-jose/v4"
@@ -23,6 +23,9 @@ import (
 )
 
 const Issuer = "https://op.example.test"
+
+// TenantB is a second host of an issuer-from-host provider.
+const TenantB = "https://tenant-b.example.test"
 
 // WorldJSON is the JSON form of OPWorld!World (written by TLC).
 type WorldJSON struct {
@@ -133,6 +136,7 @@ type Cfg struct {
 	CC      bool   `json:"cc"`
 	TE      bool   `json:"te"`
 	Dev     bool   `json:"dev"`
+	Dyn     bool   `json:"dyn"` // issuer derived from the request host (op.IssuerFromHost): several tenants on one provider
 	Alg     string `json:"alg"`
 	SessSt  string `json:"sessionState"`
 	Policy  Policy `json:"policy"`
@@ -197,7 +201,11 @@ func BuildProvider(store *modelstore.Store, cfg Cfg, extra ...op.Option) (http.H
 	}
 	st := modelstore.WithCaps(store, cfg.CC, cfg.TE, cfg.Dev)
 	opts := append([]op.Option{op.WithLogger(quiet)}, extra...)
-	p, err := op.NewProvider(conf, st, op.StaticIssuer(Issuer), opts...)
+	issuer := op.StaticIssuer(Issuer)
+	if cfg.Dyn {
+		issuer = op.IssuerFromHost("")
+	}
+	p, err := op.NewProvider(conf, st, issuer, opts...)
 	if err != nil {
 		return nil, nil, err
 	}
